@@ -31,10 +31,36 @@ def second_unconstrained(P, chk):
     b = P.body(BK + "::add_transaction")
     chk.analysed(b)
     reps = mir.call_sites(b, ["std::option::Option::replace"])
+    took = False
+    if not reps:
+        # `match unfilled.take() { Some(first) => return Err(..), None => unfilled = Some(current) }`
+        reps = [(bb, t) for bb, t in mir.call_sites(b, ["std::option::Option::take"])
+                if b.local_name(q.named_local(b, t["args"][0]) or 0) == "unfilled"]
+        took = True
     if len(reps) != 1:
-        chk.anchor_missing("add_transaction: expected one Option::replace on the unfilled slot")
+        chk.anchor_missing("add_transaction: expected one Option::replace (or take) on the unfilled slot")
         return
     rbb, rt = reps[0]
+    if took:
+        # the None arm must put the current posting into the slot
+        slot = q.named_local(b, rt["args"][0])
+        ds0 = mir.describe_switch(b, rt["target"])
+        refilled = False
+        if ds0 and ds0[0] == "variant":
+            for tb, labs in ds0[2].items():
+                if "None" in labs:
+                    for x in b.reach_from(tb):
+                        for st in b.blocks[x]["stmts"]:
+                            if st["k"] == "assign" and st["place"]["l"] == slot and not st["place"]["p"]:
+                                rv = st["rv"]
+                                if rv["k"] == "use" and rv["op"].get("k") in ("copy", "move") and not rv["op"]["place"]["p"]:
+                                    d = mir.single_def(b, rv["op"]["place"]["l"])
+                                    if d and d[0] == "assign":
+                                        rv = d[4]
+                                if rv["k"] == "aggregate" and rv.get("variant") == "Some":
+                                    refilled = refilled or (x == tb or b.must_pass_edge(x, rt["target"], tb))
+        chk.require(refilled, R_TWO, "add_transaction|an empty slot is filled with the current posting", b.loc(rbb),
+                    "after unfilled.take() returned None the slot is not set to Some(current)", "None => unfilled = Some(current)")
     # replace is reached on the (None, _) arm of process_posting's result
     okarm = any(labs == ("None",) and any(r.kind == "call" and r.name == BK + "::process_posting" for r in roots)
                 for roots, labs in q.variant_guards(b, rbb))
@@ -193,7 +219,9 @@ def balance_set_partial(P, chk):
     detail = "no cardinality-checking conversion on the bare-zero arm"
     for bb, t in conv:
         zero_arm = any(labs == ("Zero",) and any(q.is_param(r, "amount") for r in roots) for roots, labs in q.variant_guards(b, bb))
-        src = q.chain_ok(b, t["args"][0], lambda r: True, required=("insert",))
+        # the previous balance is taken out and the account left at zero: insert(account, zero()) or mem::take(entry(account))
+        src = q.chain_ok(b, t["args"][0], lambda r: True, required=("insert",)) or \
+            q.chain_ok(b, t["args"][0], lambda r: True, required=("take", "entry"))
         resolved = callee(t) or ""
         checked = "PostingAmount" in b.local_ty(t["dest"]["l"]) and "Result" in b.local_ty(t["dest"]["l"])
         if zero_arm and src and checked:
@@ -213,10 +241,23 @@ def balance_set_partial(P, chk):
     a = P.body(AMT + "::set_partial")
     chk.analysed(a)
     agg = [s for s in q.aggregates_of(P, "okane_core::report::eval::single_amount::SingleAmount") if s[0].key == a.key]
-    ok3 = len(agg) == 1
+    fv = [(bb, t) for bb, t in a.calls() if (callee_def(t) or "").endswith("SingleAmount::from_value") and t["dest"]["l"] == 0]
+    ok3 = len(agg) + len(fv) == 1
     if ok3:
-        f = {x["name"]: x["op"] for x in agg[0][3]["fields"]}
-        ok3 = q.chain_ok(a, f["value"], lambda r: True, required=("unwrap_or_default",)) and \
+        if agg:
+            f = {x["name"]: x["op"] for x in agg[0][3]["fields"]}
+        else:
+            f = {"value": fv[0][1]["args"][0], "commodity": fv[0][1]["args"][1]}
+        dflt = q.chain_ok(a, f["value"], lambda r: True, required=("unwrap_or_default",))
+        if not dflt:
+            # prev.unwrap_or(Decimal::ZERO)
+            for bb, t in a.calls():
+                if (callee_def(t) or "").endswith("Option::unwrap_or") and len(t["args"]) == 2:
+                    z = prov(a, t["args"][1])
+                    if z and all(r.kind == "const" and "ZERO" in str(r.name) for r in z) and \
+                            q.all_roots(a, f["value"], lambda r: r.kind == "call" and r.site == bb):
+                        dflt = True
+        ok3 = dflt and \
             all(n[-1].rsplit("::", 1)[-1] in ("remove", "insert") for n, r in q.chains(a, f["value"])) and \
             q.all_roots(a, f["commodity"], lambda r: q.is_param(r, "amount") and r.fields[-1:] == ("commodity",))
     chk.require(ok3, R_SETP, "Amount::set_partial|returns the previous value of that commodity", a.loc(),
